@@ -112,5 +112,15 @@ func VH_C16_once() {
 		rt.Assert(len(b.Snapshot().Operations) == ops3, "re-import-of-the-edit-records-no-operation")
 		rt.Cover("edited-on-tracker")
 	}
+	if nev, isNote := ev.(NoteEvent); isNote && !nev.System && editable {
+		// GitLab numbers notes, label events and state events independently: a state event
+		// may carry the number of a note that was already imported
+		t3 := time.Unix(1600000300, 0)
+		same := StateEvent{gitlab.StateEvent{ID: nev.Note.ID, User: &gitlab.BasicUser{ID: 7}, CreatedAt: &t3, State: "closed"}}
+		before := len(b.Snapshot().Operations)
+		rt.Cover("colliding-event-number")
+		rt.Assert(gi.ensureIssueEvent(rc, b, issue, same) == nil, "colliding-event-imported")
+		rt.Assert(len(b.Snapshot().Operations) == before+1, "event-of-another-kind-with-the-same-number-is-imported")
+	}
 	rt.Observe("ops", ops2)
 }
